@@ -3,6 +3,7 @@ module verifharness
 go 1.17
 
 require (
+	github.com/btcsuite/btcd v0.22.0-beta
 	github.com/gauss-project/aurorafs v0.0.0
 	golang.org/x/crypto v0.0.0-20220411220226-7b82a4e95df4
 )
